@@ -44,6 +44,18 @@ func encRun(r *run, prop string, c *encCase) {
 		l = slog.New(c.name)
 	}
 	l.SetWriter(rec).SetErrorWriter(rec).SetLevel(slog.TraceLevel)
+	if (len(c.msg)+len(c.attrs)+c.lvl)%3 == 1 {
+		// a first destination that itself logs (through an unrelated logger, in another format) while it is written
+		// to: what the recording destination receives afterwards is still this record
+		ch := &chattyW{side: slog.New("side").SetWriter(&recorder{}).SetErrorWriter(&recorder{}).SetLevel(slog.TraceLevel)}
+		switch (len(c.msg) + c.tagW) % 3 {
+		case 0:
+			ch.side.SetJSONMode(true)
+		case 1:
+			ch.side.SetColorMode(false)
+		}
+		l.SetWriter(ch).AddWriter(rec).SetErrorWriter(ch).AddErrorWriter(rec)
+	}
 	switch c.format {
 	case "j":
 		l.SetJSONMode(true)
@@ -99,6 +111,15 @@ func encRun(r *run, prop string, c *encCase) {
 	line := fmt.Sprintf("ENC %s %d %s %s %s %s %d %d %s", c.format, c.lvl, hxs(c.tsText), hxs(c.name), hxs(c.msg), callerTok, c.tagW, c.minW,
 		strings.Join(attrsTokens(c.attrs), " "))
 	r.emit(strings.TrimRight(line, " "), obs)
+}
+
+// chattyW logs a record of its own from inside Write.
+type chattyW struct{ side slog.Logger }
+
+func (w *chattyW) Write(p []byte) (int, error) {
+	w.side.Warn("a destination that logs while it is being written to: "+strings.Repeat("#", len(p)%97), "bytes", len(p),
+		"grp", slog.NewGroupedAttr("side", slog.NewAttr("b", 2), slog.NewAttr("a", "one")))
+	return len(p), nil
 }
 
 // encAttrsOf: the prepared slice if there is one, else a fresh one
